@@ -276,7 +276,7 @@ class Collada(object):
         """Return the binary data of an auxiliary file from the local disk relative to the file path loaded."""
         if self.zfile:
             raise DaeBrokenRefError('Trying to load an auxiliary file %s from disk but we are reading from a zip file' % fname)
-        basepath = os.path.dirname(self.filename)
+        basepath = os.path.dirname(os.fsdecode(self.filename))
         aux_path = os.path.normpath(os.path.join(basepath, fname))
         if not os.path.isfile(aux_path):
             raise DaeBrokenRefError('Auxiliar file %s not found on disk' % fname)
